@@ -202,20 +202,44 @@ def post_parse_date(date, result):
 
 
 # ----------------------------------------------------------------- C02: registry functions do not mutate arguments
+def _same_shape(fn, inner):
+    """A function with fn's own parameter list (names, defaults, *args) that hands its arguments to inner(args): the monitor
+    must not change what code looking at a registry entry sees (inspect.getfullargspec, __code__.co_argcount, __defaults__) -
+    a change under test may well decide on that, and would then behave differently when watched than when not."""
+    import inspect
+    try:
+        spec = inspect.getfullargspec(fn)
+    except TypeError:
+        return None
+    if spec.kwonlyargs or spec.varkw or not all(a.isidentifier() for a in spec.args):
+        return None
+    params = list(spec.args) + (['*' + spec.varargs] if spec.varargs else [])
+    tup = '(%s)' % ''.join(a + ', ' for a in spec.args) + (' + tuple(%s)' % spec.varargs if spec.varargs else '')
+    ns = {'__inner': inner}
+    exec('def %s(%s):\n    return __inner(%s)\n' % (fn.__name__ if fn.__name__.isidentifier() else 'guarded', ', '.join(params), tup), ns)
+    g = [v for k, v in ns.items() if k not in ('__inner', '__builtins__')][0]
+    g.__defaults__ = fn.__defaults__
+    return g
+
+
 def _guard_registry_fn(name, fn):
-    @functools.wraps(fn)
-    def guarded(*args, **kw):
+    def inner(args):
         MON.evals['C02.arg_snapshot'] += 1
         hold = [a for a in args if isinstance(a, (list, dict))]
         before = [canon(a) for a in hold] if hold else None
         try:
-            return fn(*args, **kw)
+            return fn(*args)
         finally:
             if hold:
                 after = [canon(a) for a in hold]
                 if after != before:
                     MON.alarm('C02', 'C02/contract:function-mutates-argument:' + name, function=name,
                               before=before, after=after)
+    guarded = _same_shape(fn, inner)
+    if guarded is None:
+        def guarded(*args):
+            return inner(args)
+    functools.update_wrapper(guarded, fn)
     guarded.__hxmon_wrapped__ = fn
     return guarded
 
